@@ -103,6 +103,8 @@ def run(tier, seed, opens):
     tmp = tempfile.mkdtemp(prefix='c10-', dir=os.environ.get('BCL_DATA_DIR'))
     db = 'sqlite:///' + os.path.join(tmp, 'w.sqlite')
     net = 'bitcoinlib_test'
+    import random
+    rng = random.Random(1010 + seed)
     configs = [(2, 3), (2, 2)] if tier == 'quick' else [(2, 3), (2, 2), (1, 2), (3, 3), (3, 4)]
     cases = ok = 0
     failed, known = [], {}
@@ -129,8 +131,8 @@ def run(tier, seed, opens):
         wn = 0
         for (m, n) in configs:
             for wt in ('legacy', 'p2sh-segwit', 'segwit'):
-                keys = [HDKey(network=net, witness_type=wt) for _ in range(n)]
-                dest = HDKey(network=net, witness_type=wt).address()
+                keys = [HDKey.from_seed(bytes(rng.getrandbits(8) for _ in range(32)), network=net, witness_type=wt) for _ in range(n)]
+                dest = HDKey.from_seed(bytes(rng.getrandbits(8) for _ in range(32)), network=net, witness_type=wt).address()
                 wallets = []
                 for i in range(n):
                     kl = [keys[j] if j == i else keys[j].public_master(multisig=True) for j in range(n)]
